@@ -841,6 +841,11 @@ func (gqm *GroupQuotaManager) MigratePod(pod *v1.Pod, out, in string) {
 	gqm.hierarchyUpdateLock.Lock()
 	defer gqm.hierarchyUpdateLock.Unlock()
 
+	// the caller iterates over a snapshot of the out quota without holding the lock: skip a pod which has been moved,
+	// deleted or updated since then, the next round will work on its latest state.
+	if outQuotaInfo := gqm.getQuotaInfoByNameNoLock(out); outQuotaInfo == nil || outQuotaInfo.getCachedPod(pod) != pod {
+		return
+	}
 	gqm.migratePodNoLock(pod, out, in)
 }
 
